@@ -263,11 +263,11 @@ class EventTypeParent(OntologyElement):
                 parent_element.attrib['parent-description'],
                 parent_element.attrib['siblings-description']
             )
-        except KeyError as e:
+        except (KeyError, ValueError) as e:
             raise EDXMLOntologyValidationError(
                 "Failed to instantiate an event type parent from the following definition:\n" +
                 etree.tostring(parent_element, pretty_print=True, encoding='unicode') +
-                "\nMissing attribute: " + str(e)
+                "\nMissing attribute or illegal value: " + str(e)
             )
 
     def __cmp__(self, other):
